@@ -631,24 +631,40 @@ class Mp4Atom(ObjectWithFields):
             fourcc = bytes(self.atom_type, 'latin-1')
         self.options.log.debug('%s: encode %s pos=%d', self._fullname,
                                self.classname(), self.position)
+        # a box that was parsed with a 64-bit size keeps that form of header
+        large_size: bool = self.__dict__.get('header_size') == (12 + len(fourcc))
         if self._encoded is not None:
             self.options.log.debug('%s: Using pre-encoded data length=%d',
                                    self._fullname, len(self._encoded))
             expected_size = 4 + len(fourcc) + len(self._encoded)
+            if large_size:
+                expected_size += 8
             if self.size != expected_size:
                 msg = r'{}: Expected size {:d}, actual size {:d}'.format(
                     self._fullname, self.size, expected_size)
                 self.options.log.warning(msg)
                 if self.options.strict:
                     raise ValueError(msg)
-            out.write(struct.pack('>I', self.size))
-            out.write(fourcc)
+            if large_size:
+                out.write(struct.pack('>I', 1))
+                out.write(fourcc[:4])
+                out.write(struct.pack('>Q', self.size))
+                out.write(fourcc[4:])
+            else:
+                out.write(struct.pack('>I', self.size))
+                out.write(fourcc)
             out.write(self._encoded)
             if dest is None:
                 return out.getvalue()
             return dest
-        out.write(struct.pack('>I', 0))
-        out.write(fourcc)
+        if large_size:
+            out.write(struct.pack('>I', 1))
+            out.write(fourcc[:4])
+            out.write(struct.pack('>Q', 0))
+            out.write(fourcc[4:])
+        else:
+            out.write(struct.pack('>I', 0))
+            out.write(fourcc)
         self.encode_fields(dest=out)
         # indent = ' ' * depth
         if self._children:
@@ -658,8 +674,12 @@ class Mp4Atom(ObjectWithFields):
         self.size = out.tell() - self.position
         # print(f'{indent}{self.atom_type}: {self.position} -> {out.tell()} ({self.size})')
         # replace the length field
-        out.seek(self.position)
-        out.write(struct.pack('>I', self.size))
+        if large_size:
+            out.seek(self.position + 8)
+            out.write(struct.pack('>Q', self.size))
+        else:
+            out.seek(self.position)
+            out.write(struct.pack('>I', self.size))
         out.seek(0, 2)  # seek to end
         if depth == 0:
             self.post_encode_all(dest=out)
